@@ -1341,11 +1341,11 @@ def register_populations_from_swc(R):
           ensures=BASE + MATCH + [("every-reader-gets-the-given-columns-then-the-eswc-columns-callers-list-untouched", eswc_columns)],
           notes="Populations.from_swc inlined")
 
-    # FINDING (genuine defect, replayed natively: tools/replay_C19_check_same.py): with intersect=False the
+    # Defect found here and FIXED in /repo (replayed natively: tools/replay_C19_check_same.py): with intersect=False the
     # option check_same=True is documented as "Check if the directories contains the same swc", but the code asserts a
     # NON-EMPTY LIST (`assert [fs[0] == a for a in fs[1:]]`), which is always true for two or more roots: directories with
     # different file sets are accepted and row i pairs differently named files.  (With ONE root the list is empty and the
-    # call always raises AssertionError.)  The clause below is what the option promises; it FAILS on the unchanged code.
+    # call always raises AssertionError.)  The clause below is what the option promises; it failed on the code before the fix.
     def same_lists(E, v, o):
         F = found(E)
         i = z3.Int(fresh_name("row"))
@@ -1353,9 +1353,9 @@ def register_populations_from_swc(R):
 
     R.add(f"{POP}:Populations.from_swc", prop="C19",
           variants={"two-roots-check-same": setup(2, False, check_same=True)},
-          raises={"AssertionError": ("only-when-some-root-lists-different-relative-paths", lambda E, v, o: True)},
-          ensures=[("check_same:accepted-only-if-every-root-lists-the-same-relative-paths", same_lists)],  # FINDING
-          notes="FINDING: check_same never rejects")
+          raises={"AssertionError": ("only-when-some-root-lists-different-relative-paths", lambda E, v, o: z3.Not(same_lists(E, v, o)))},
+          ensures=[("check_same:accepted-only-if-every-root-lists-the-same-relative-paths", same_lists)],
+          notes="found a defect (fixed in /repo, see known_findings.jsonl): check_same never rejected")
 
 
 _reg19h = register
